@@ -21,7 +21,9 @@ Check(i) == LET o == Obs[i] IN
             /\ C(o, ValuesOK(o.w, o.docs, g), "ValuesAreAnOrderedSequence", <<Base(o)>>))
    ELSE
       C(o, o.out = "ok" /\ ImportOK(o.w, o.docs, o.r, o.imp), "ImportsBackUnchanged",
-        <<o.fmt, o.entry, o.out, o.exc, IF o.out = "ok" THEN ImportMismatch(o.w, o.docs, o.r, o.imp) ELSE {}>>)
+        <<o.fmt, o.entry, o.out, o.exc, IF o.out = "ok" THEN ImportMismatch(o.w, o.docs, o.r, o.imp) ELSE {},
+          \* classification only: the import agrees once floats are compared to 5 significant digits
+          IF o.digits_only THEN "float-digits-only" ELSE "other">>)
 JInit == l = 1
 JNext == l <= Len(Obs) /\ (Check(l) = TRUE) /\ l' = l + 1
 JSpec == JInit /\ [][JNext]_l
